@@ -55,6 +55,7 @@ struct SigRec {
 };
 static std::vector<SigRec> g_signals;
 static int g_seq = 0;
+static bool g_quietRx = false;   // relay mode with very many elements: do not journal each of them
 static QByteArray g_certPem, g_keyPem;
 
 static void J(QJsonObject o)
@@ -198,6 +199,11 @@ struct Conn {
             smInbound++;
         }
         o["sm_inbound"] = smInbound;
+        if (g_quietRx) {
+            queue << o;
+            if (!el.attribute(u"id"_s).isEmpty() && tag == u"iq") lastId = el.attribute(u"id"_s);
+            return;
+        }
         if (tag == u"a" && ns == u"urn:xmpp:sm:3") o["h"] = el.attribute(u"h"_s);
         if (tag == u"resume" && ns == u"urn:xmpp:sm:3") {
             o["h"] = el.attribute(u"h"_s);
@@ -468,7 +474,7 @@ struct Case {
             else if (m == u"transfer") {
                 auto *tm = cl->addNewExtension<QXmppTransferManager>();
                 tm->setSupportedMethods(QXmppTransferJob::InBandMethod);
-#ifdef QXMPP_VERIF_HOOKS_IBB
+#ifdef QXMPP_VERIF_HOOKS
                 if (st.contains("ibbBlockSize")) tm->verifSetIbbBlockSize(st["ibbBlockSize"].toInt());
 #endif
                 QObject::connect(tm, &QXmppTransferManager::fileReceived, &c.ctx, [=](QXmppTransferJob *job) {
@@ -933,6 +939,10 @@ struct Case {
 
     void relay(const QJsonObject &st, int timeout)
     {
+        g_quietRx = st["quietRx"].toBool();
+        struct Unquiet {
+            ~Unquiet() { g_quietRx = false; }
+        } unquiet;
         const QJsonObject tamper = st["tamper"].toObject();
         const QString kind = tamper["kind"].toString();
         const int at = tamper["at"].toInt(-1);   // index of the IBB <data/> stanza the fault applies to
